@@ -67,7 +67,7 @@ def run(c):
 
     # 3. concurrent reporters, TLC explains the linearisation
     if not c.replay:
-        rounds, G, P, M = (300, 3, 6, 2) if q else (1500, 4, 7, 3)
+        rounds, G, P, M = (5200, 3, 6, 2) if q else (16000, 4, 7, 3)   # 3 of 4 rounds are focused (8 prefixes x 9 x 9 report pairs, repeated)
         nbatches = 1 if q else 4
         for bno in range(nbatches):
             tr = os.path.join(c.work, "conc%d.ndjson" % bno)
@@ -95,6 +95,40 @@ def run(c):
                 raise vlib.Inconclusive("trace validation failed without a verdict: %s" % r.out[-1500:])
         if rounds:
             c.sample(dict(kind="concurrent trace (first round)", lines=open(os.path.join(c.work, "conc0.ndjson")).read().splitlines()[:6]))
+
+    # 4. shared component: TLC-enumerated start / report / stop scripts over two logical instances, replayed through the
+    #    real sharedcomponent wrapper feeding the real status reporter; delivered events per instance compared per step
+    if not c.replay:
+        n = c.pick(5, 6)
+        cfg = """SPECIFICATION SSpec
+CONSTANTS
+  Inst = {"i1", "i2"}
+  NSteps = %d
+INVARIANT EmitShared
+INVARIANT SharedPath
+INVARIANT SharedDeliversToAll
+CHECK_DEADLOCK FALSE
+""" % n
+        r = c.tlc("StatusFSM", "SharedComponent", cfg_text=cfg, workers=1, timeout=900, label="shared_gen_n%d" % n, heap="8g")
+        if not r.ok or not r.printed:
+            raise vlib.Inconclusive("shared component spec/generator failed: %s %s" % (r.error, (r.trace_text or r.out)[-1500:]))
+        f = os.path.join(c.work, "shared.ndjson")
+        with open(f, "w") as fh:
+            for b in r.printed:
+                fh.write(json.dumps(b, separators=(",", ":")) + "\n")
+        out = os.path.join(c.work, "shared_res.json")
+        c.run([binp, "shared", f, out], timeout=600)
+        res = json.load(open(out))
+        if res["behaviours"] != len(r.printed):
+            raise vlib.Inconclusive("shared driver replayed %d of %d" % (res["behaviours"], len(r.printed)))
+        for m in (res.get("mismatches") or [])[:5]:
+            c.violation("shared component: delivered events differ after step %d: specified %s, real %s; steps=%s" % (
+                m["step"], m["want"], m["got"], [(s["op"], s["inst"] or s["st"], s["fails"]) for s in m["steps"][:m["step"] + 1]]),
+                replay_obj=dict(kind="shared", steps=m["steps"]))
+        c.traces_validated += len(r.printed)
+        total += len(r.printed)
+        c.sample(dict(kind="shared component script", steps=r.printed[len(r.printed) // 2]))
+        c.log("shared component: %d scripts replayed, %d mismatches" % (len(r.printed), len(res.get("mismatches") or [])))
 
     c.evaluations = total
     c.assumptions += ["Go sync.Mutex serialises reports (callbacks run under the reporter mutex)",
